@@ -4,7 +4,7 @@
    model and property agree, otherwise a small code (see [classify]).  Element values and fills are integer
    tokens (the little-endian bytes of the element), so floats are never compared as floats. *)
 From Coq Require Import ZArith List Bool String.
-From Verif Require Import Py Shape COO S_npz Npz Judge.
+From Verif Require Import Py Shape COO S_npz Npz NpzP Judge.
 Import ListNotations.
 Open Scope Z_scope.
 
@@ -46,10 +46,11 @@ Definition agrees (m : res (arr Z)) (o : outcome) : bool :=
   | _, _ => false
   end.
 
-(* does the implementation's outcome satisfy the property: the very same array (and dtype) comes back *)
-Definition holds (x : jarr) (o : outcome) : bool :=
+(* does the implementation's outcome satisfy the property: the expected array [want] (the input itself; for the npz
+   round trip of a CSR / CSC its plain-GCXS image) comes back, with the same dtype *)
+Definition holds_as (want : arr Z) (x : jarr) (o : outcome) : bool :=
   match o with
-  | (0, Some j) => arr_eqb (to_arr j) (to_arr x) && (dtype_of j =? dtype_of x)
+  | (0, Some j) => arr_eqb (to_arr j) want && (dtype_of j =? dtype_of x)
   | _ => false
   end.
 
@@ -62,25 +63,48 @@ Definition holds (x : jarr) (o : outcome) : bool :=
      9   the harness produced an input outside the model's well-formedness (harness error)
      10+c  property fails outside the domain, clause c, exactly as the model predicts (known defect class)
      20+c  property fails outside the domain, clause c, but not in the way the model predicts
-   clauses: 0 D9_gcxs_1d | 1 D9_csr_csc_subclass | 2 NB_shape_fits_coords_dtype | 3 NB_construct_shape_type *)
-Definition classify (x : jarr) (wfx : bool) (clause : option Z) (m : res (arr Z)) (o : outcome) : Z :=
+   clauses: 2 NB_shape_fits_coords_dtype | 3 NB_construct_shape_type | 4 MM_optional_compressed_axes (judge_missing) *)
+Definition classify_as (want : arr Z) (x : jarr) (wfx : bool) (clause : option Z) (m : res (arr Z)) (o : outcome) : Z :=
   if negb wfx then 9
   else if (fst o =? 100) || (fst o =? 101) then 6
-  else if holds x o then (if agrees m o then 0 else 2)
+  else if holds_as want x o then (if agrees m o then 0 else 2)
   else match o with
-       | (0, Some j) => if arr_eqb (to_arr j) (to_arr x) then 7 else
+       | (0, Some j) => if arr_eqb (to_arr j) want then 7 else
                           match clause with None => 3 | Some c => if agrees m o then 10 + c else 20 + c end
        | _ => match clause with None => 3 | Some c => if agrees m o then 10 + c else 20 + c end
        end.
 
-(* ---- save_npz / load_npz *)
-Definition npz_clause (x : arr Z) : option Z :=
-  if negb (d9_gcxs_1d Z x) then Some 0 else if negb (d9_csr_csc_subclass Z x) then Some 1 else None.
+Definition classify (x : jarr) := classify_as (to_arr x) x.
 
+(* ---- save_npz / load_npz: no domain clause is left; a CSR / CSC must come back as the plain GCXS of the same fields *)
 Definition judge_npz (c : jarr * outcome) : Z :=
   let '(j, o) := c in
   let x := to_arr j in
-  classify j (wf Z x) (npz_clause x) (ms <- save_members Z x ;; load_members Z ms) o.
+  classify_as (as_saved Z x) j (wf Z x) None (ms <- save_members Z x ;; load_members Z ms) o.
+
+(* ---- files from which members were removed (rewritten archives).  [dropped] = codes of the removed members:
+   0 data 1 shape 2 fill_value 3 coords 4 indices 5 indptr 6 compressed_axes.  The property: the load raises.
+   Codes: 0 raises as the model predicts | 2 raises although the model predicts an array | 3 loads an array inside the
+   domain | 14 / 24 loads an array, clause MM_optional_compressed_axes, as / not as the model predicts *)
+Definition member_name (a : Z) : string :=
+  if a =? 0 then s_data else if a =? 1 then s_shape else if a =? 2 then s_fill else if a =? 3 then s_coords
+  else if a =? 4 then s_indices else if a =? 5 then s_indptr else s_axes.
+
+Definition judge_missing (c : jarr * list Z * outcome) : Z :=
+  let '(j, dropped, o) := c in
+  let x := to_arr j in
+  let keep n := negb (existsb (fun a => String.eqb n (member_name a)) dropped) in
+  if negb (wf Z x) then 9
+  else match save_members Z x with
+       | Raise _ => 9
+       | Ok ms =>
+         let m := load_members Z (restrict Z keep ms) in
+         if (fst o =? 100) || (fst o =? 101) then 6
+         else match o with
+              | (0, Some _) => if mm_axes_kept Z x keep then 3 else if agrees m o then 14 else 24
+              | _ => match m with Raise _ => 0 | Ok _ => 2 end
+              end
+       end.
 
 (* ---- pickle *)
 Definition judge_pickle (c : jarr * outcome) : Z :=
@@ -133,22 +157,23 @@ Definition judge_numba (c : jarr * (Z * bool) * bool * outcome) : Z :=
   end.
 
 (* ---- damaged files.  One case = one saved file and the outcomes of loading a batch of its damaged variants:
-   0 an exception | 1 an array equal to the original | 2 a different array | 3 hang or crash.
-   The model: the bytes are either [Damaged] (load raises) or still a complete file of the saved members (load
-   gives the original back).  Codes: 5 some variant loaded as a different array; 6 hang / crash; 8 the model does
-   not reproduce the original from the complete file although the implementation did. *)
+   0 an exception | 1 an array equal to what the intact file gives | 2 a different array | 3 hang or crash.
+   The model: the bytes are [Unreadable] or an [Archive false _] (load raises, whatever the member reads would
+   return), or still an [Archive true] of the saved members (load gives the round-trip image back).
+   Codes: 5 some variant loaded as a different array; 6 hang / crash; 8 the model does not reproduce the
+   implementation's outcome. *)
 Definition judge_fault (c : jarr * list Z) : Z :=
   let '(j, outs) := c in
   let x := to_arr j in
-  let damaged_raises := match load_file Z Damaged with Raise _ => true | Ok _ => false end in
-  let complete_same :=
+  let raises (f : file Z) := match load_file Z f with Raise _ => true | Ok _ => false end in
+  let intact_same :=
       match save_members Z x with
-      | Ok ms => match load_file Z (Complete ms) with Ok y => arr_eqb y x | Raise _ => false end
+      | Ok ms => match load_file Z (Archive true ms) with Ok y => arr_eqb y (as_saved Z x) | Raise _ => false end
       | Raise _ => false
       end in
   if negb (wf Z x) then 9
   else if existsb (fun o => o =? 3) outs then 6
   else if existsb (fun o => o =? 2) outs then 5
-  else if existsb (fun o => o =? 0) outs && negb damaged_raises then 8
-  else if existsb (fun o => o =? 1) outs && negb complete_same then 8
+  else if existsb (fun o => o =? 0) outs && negb (raises Unreadable && raises (Archive false [])) then 8
+  else if existsb (fun o => o =? 1) outs && negb intact_same then 8
   else 0.
